@@ -3,7 +3,7 @@ import ApolloModel.Proofs.ParserType10
 import ApolloModel.Proofs.ParserValue9
 import ApolloModel.Proofs.ParserSel9
 import ApolloModel.Proofs.ParserComplete28
-import ApolloModel.Proofs.ParserExactS7
+import ApolloModel.Proofs.ParserExactS13
 import ApolloModel.Proofs.ParserDef19
 import ApolloModel.Proofs.ParserTermination8
 import ApolloModel.Proofs.ParserDoc5
@@ -794,6 +794,95 @@ theorem selection_set_accept_sound_exact (n : Nat) (s s' : PState) (t : Tok) (re
       Parse.Exact.fitSels ss (s.recLimit - s.recCur - 1) := by
   obtain ⟨cs, x, a, b, _, d, ss, hne, rfl, hb, hf⟩ := (Parse.Exact.sel_all_sound n).1 s s' t rest w he ht hk h hnd
   exact ⟨cs, ss, a, b, hne, d, hb, hf⟩
+
+/-! ### growth 9: exact soundness for types, variable / operation / fragment definitions, and the "if and only if" for
+    executable documents -/
+
+/-- **`ty`, exact soundness** (one run, any state): an error-free run consumed the tokens of ONE type reference whose
+    list nesting is within the remaining recursion budget of the START state -/
+theorem type_reference_accept_sound_exact (n : Nat) (s s' : PState) (w : TW s) (he : EofEnd s)
+    (h : (ty n).run s = .ok () s') (hnd : ¬ Doomed s') :
+    ∃ (cs : List Tok) (t : Ast.Ty), Toks s = cs ++ Toks s' ∧ NoEof cs ∧
+      (sig cs).map astOfV = (Ast.tTy t).map some ∧ tyDepth t ≤ s.recLimit - s.recCur := by
+  obtain ⟨cs, x, a, b, _, d, t, rfl, ht⟩ := Parse.Exact.ty_sound n s s' w he h hnd
+  exact ⟨cs, t, a, b, d, ht⟩
+
+/-- **`variable_definitions`, acceptance iff grammar** (one run, started on `(`): with the queue
+    `(t :: tl) ++ q0 :: rest`, `q0` significant, the run ended error-free right in front of `q0` exactly when `t :: tl`
+    spells `( VariableDefinition+ )` with every type (`tyDepth`), every default value (`Const`, exact `vdepth`) and every
+    directive argument (`Const`, exact `vdepth`) within the remaining budget (`Parse.Exact.LVarDefs`) -/
+theorem variable_definitions_accept_iff (n : Nat) (s s' : PState) (t : Tok) (tl : List Tok) (q0 : Tok) (rest : List Tok)
+    (w : TW s) (he : EofEnd s) (hnd0 : ¬ Doomed s) (ht : Toks s = (t :: tl) ++ q0 :: rest) (hk : t.kind = .lParen)
+    (hq : isIgnoredKind q0.kind = false) (h : (variableDefinitions n).run s = .ok () s') :
+    (¬ Doomed s' ∧ Toks s' = q0 :: rest) ↔
+      ∃ x, (sig (t :: tl)).map astOfV = x.map some ∧ Parse.Exact.LVarDefs (s.recLimit - s.recCur) x :=
+  Parse.Exact.variableDefinitions_iff n s s' t tl q0 rest w he hnd0 ht hk hq h
+
+/-- **`operation_definition`, acceptance iff grammar** (one run, state level): with the queue `cs ++ q0 :: rest` (`cs`
+    not starting with an ignored token, `q0` significant), the run ended error-free right in front of `q0` exactly when
+    `cs` spells a full operation definition `OperationType Name? VariableDefinitions? Directives? SelectionSet` or the
+    shorthand `{ Selection+ }` within the exact budget (`Parse.Exact.LOperation`: variable definitions as above,
+    directives non-`Const` within the budget, selection set non-empty with `1 ≤ budget` and `fitSels ss (budget − 1)`) -/
+theorem operation_definition_accept_iff (n : Nat) (s s' : PState) (cs : List Tok) (q0 : Tok) (rest : List Tok)
+    (w : TW s) (he : EofEnd s) (hnd0 : ¬ Doomed s) (ht : Toks s = cs ++ q0 :: rest)
+    (hhead : ∀ hd tl, cs = hd :: tl → isIgnoredKind hd.kind = false) (hq : isIgnoredKind q0.kind = false)
+    (h : (operationDefinition n).run s = .ok () s') :
+    (¬ Doomed s' ∧ Toks s' = q0 :: rest) ↔
+      ∃ x, (sig cs).map astOfV = x.map some ∧ Parse.Exact.LOperation (s.recLimit - s.recCur) x :=
+  Parse.Exact.operationDefinition_iff n s s' cs q0 rest w he hnd0 ht hhead hq h
+
+/-- **`fragment_definition`, acceptance iff grammar** (one run, entered on the keyword `fragment` — which is how the
+    document dispatch calls it): `fragment FragmentName TypeCondition Directives? SelectionSet` with
+    `FragmentName ≠ on`, within the exact budget (`Parse.Exact.LFragment`) -/
+theorem fragment_definition_accept_iff (n : Nat) (s s' : PState) (t : Tok) (tl : List Tok) (q0 : Tok) (rest : List Tok)
+    (w : TW s) (he : EofEnd s) (hnd0 : ¬ Doomed s) (ht : Toks s = (t :: tl) ++ q0 :: rest) (hk : t.kind = .name)
+    (hd : t.data = "fragment".toList) (hq : isIgnoredKind q0.kind = false)
+    (h : (fragmentDefinition n).run s = .ok () s') :
+    (¬ Doomed s' ∧ Toks s' = q0 :: rest) ↔
+      ∃ x, (sig (t :: tl)).map astOfV = x.map some ∧ Parse.Exact.LFragment (s.recLimit - s.recCur) x :=
+  Parse.Exact.fragmentDefinition_iff n s s' t tl q0 rest w he hnd0 ht hk hd hq h
+
+/-- the guard of `executable_document_accept_iff`, on the significant tokens of the source: none is a String token (a
+    description) and none has the text of one of the nine keywords by which `select_definition` starts a type-system
+    definition or extension -/
+abbrev ExecutableOnly (src : Parse.Str) : Prop :=
+  ∀ t ∈ sig (srcToks src), t.kind ≠ .stringValue ∧
+    (t.data ≠ "directive".toList ∧ t.data ≠ "enum".toList ∧ t.data ≠ "extend".toList ∧ t.data ≠ "input".toList ∧
+     t.data ≠ "interface".toList ∧ t.data ≠ "type".toList ∧ t.data ≠ "scalar".toList ∧ t.data ≠ "schema".toList ∧
+     t.data ≠ "union".toList)
+
+/-- **`Parser::parse` on executable-only sources: zero errors IF AND ONLY IF the tokens are an executable document within
+    the exact recursion budget.**  For a source whose significant tokens contain no String and none of the nine
+    type-system keywords (`ExecutableOnly`; sufficient for the dispatch to reach only `operation_definition` and
+    `fragment_definition`): the parse reports ZERO errors exactly when the source lexes cleanly and its significant
+    tokens — ignored tokens anywhere — are one or more executable definitions followed by EOF, each a full operation
+    definition, a shorthand `{ Selection+ }` or a fragment definition with name ≠ `on`, each within the EXACT budget `rl`
+    (`Parse.Exact.IsExecDocFit rl`: list nesting of types ≤ rl; exact nesting of default values and argument values
+    ≤ rl where `[]`/`{}` cost nothing; default values and variable-definition directives `Const`; selection-set nesting
+    + 1 ≤ rl; inline fragments and sub-selections non-empty; spread names ≠ `on`).  The direction ⇐ holds without the
+    guard (`Parse.Exact.parseDocument_complete_sig`).  The guard excludes some executable documents (a field named
+    `type`); for those only ⇐ is stated here. -/
+theorem executable_document_accept_iff (rl : Nat) (src : Parse.Str) (hg : ExecutableOnly src) :
+    (parse .document none rl src).errors = [] ↔
+      LexClean src ∧ ∃ ts x e, sig (srcToks src) = ts ++ [e] ∧ e.kind = .eof ∧ ts.map astOfV = x.map some ∧
+        Parse.Exact.IsExecDocFit rl x :=
+  Parse.Exact.parseDocument_exec_iff rl src hg
+
+-- witnesses (kernel-evaluated on the model) for the guards of the variable-definition language and of the document iff:
+-- default values and variable-definition directives are `Const`; the default value's exact depth counts (`[]` is free);
+-- without the `ExecutableOnly` guard ⇒ fails (a type-system definition is accepted), while a guard-violating executable
+-- document is still accepted (⇐ needs no guard); a description in front of an executable definition is an error
+example : (parse .document none 500 "query Q($v: Int = $x) { a }".toList).errors ≠ [] := by decide +kernel
+example : (parse .document none 500 "query Q($v: Int @d(a: $x)) { a }".toList).errors ≠ [] := by decide +kernel
+example : (parse .document none 500 "query Q($v: Int = 1 @d(a: [2])) @e(b: $v) { a }".toList).errors = [] := by decide +kernel
+example : (parse .document none 1 "query Q($v: Int = [[1]]) { a }".toList).errors ≠ [] := by decide +kernel
+example : (parse .document none 2 "query Q($v: Int = [[1]]) { a }".toList).errors = [] := by decide +kernel
+example : (parse .document none 1 "query Q($v: Int = [[]]) { a }".toList).errors = [] := by decide +kernel
+example : (parse .document none 500 "query Q() { a }".toList).errors ≠ [] := by decide +kernel
+example : (parse .document none 500 "query Q($v Int) { a }".toList).errors ≠ [] := by decide +kernel
+example : (parse .document none 500 "scalar S".toList).errors = [] := by decide +kernel
+example : (parse .document none 500 "{ type }".toList).errors = [] := by decide +kernel
+example : (parse .document none 500 "\"d\" { a }".toList).errors ≠ [] := by decide +kernel
 
 end Executable
 
